@@ -126,27 +126,28 @@ def Names.tok (N : Names) (name : String) : Int := ((N.toks.find? (·.1 == name)
 def kids : Tree → List Tree
   | .node _ ks => ks
   | _ => []
-def ruleKids (t : Tree) : List Tree := (kids t).filter (fun k => k.rootRule.isSome)
-def kidsOfRule (N : Names) (t : Tree) (name : String) : List Tree :=
-  (kids t).filter (fun k => match k.rootRule with | some r => N.rule r == name | none => false)
+def isNode (k : Tree) : Bool := k.rootRule.isSome
+def ruleKids (t : Tree) : List Tree := (kids t).filter isNode
+def isRuleKid (N : Names) (name : String) (k : Tree) : Bool :=
+  match k.rootRule with | some r => N.rule r == name | none => false
+def kidsOfRule (N : Names) (t : Tree) (name : String) : List Tree := (kids t).filter (isRuleKid N name)
 def kidOfRule (N : Names) (t : Tree) (name : String) : Option Tree := (kidsOfRule N t name).head?
 def ruleNameOf (N : Names) (t : Tree) : String := match t.rootRule with | some r => N.rule r | none => "<leaf>"
-/-- terminal children (error nodes included, as GetToken does) having token type `name` -/
-def hasTok (N : Names) (t : Tree) (name : String) : Bool :=
-  (kids t).any (fun k => match k with
-    | .leaf s => leafType s == N.tok name
-    | .err s => leafType s == N.tok name
-    | _ => false)
-def countTok (N : Names) (t : Tree) (name : String) : Nat :=
-  ((kids t).filter (fun k => match k with
-    | .leaf s => leafType s == N.tok name
-    | .err s => leafType s == N.tok name
-    | _ => false)).length
-/-- newTokenLiteralIterator: TrimSpace'd texts of *TerminalNodeImpl children that are not blank -/
-def litTokens (t : Tree) : List String :=
-  (kids t).filterMap (fun k => match k with
-    | .leaf s => if goBlank (leafText s) then none else some (leafText s)   -- (TrimSpace of a non-blank SP keeps inner text; approximated by the raw text)
-    | _ => none)
+/-- a terminal child (error nodes included, as GetToken does) of token type `name` -/
+def isTokLeaf (N : Names) (name : String) (k : Tree) : Bool :=
+  match k with
+  | .leaf s => leafType s == N.tok name
+  | .err s => leafType s == N.tok name
+  | .node _ _ => false
+def hasTok (N : Names) (t : Tree) (name : String) : Bool := (kids t).any (isTokLeaf N name)
+def countTok (N : Names) (t : Tree) (name : String) : Nat := ((kids t).filter (isTokLeaf N name)).length
+/-- newTokenLiteralIterator: TrimSpace'd texts of *TerminalNodeImpl children that are not blank
+(TrimSpace of a non-blank SP keeps inner text; approximated by the raw text) -/
+def litTok (k : Tree) : Option String :=
+  match k with
+  | .leaf s => if goBlank (leafText s) then none else some (leafText s)
+  | _ => none
+def litTokens (t : Tree) : List String := (kids t).filterMap litTok
 
 /-- ctx.GetText(): concatenation of all terminal texts of the subtree -/
 def getText : Nat → Tree → String
@@ -159,7 +160,7 @@ def lower (s : String) : String := s.map Char.toLower
 
 /-! ### small parsers of the Go standard library that the visitors call -/
 
-def isDigit (c : Char) : Bool := '0' ≤ c && c ≤ '9'
+def isDigit (c : Char) : Bool := c.isDigit
 /-- strconv.ParseInt(s, 10, 64) on an unsigned digit string -/
 def parseInt64 (s : String) : Option Int :=
   if s.isEmpty || !(s.toList.all isDigit) then none
@@ -233,6 +234,19 @@ def rangeTokens (a : Option Nat) (dots : Bool) (b : Option Nat) : List RTok :=
 /-- what `*a..b` MEANS in openCypher: `*` any length; `*n` exactly n; `*a..` at least a; `*..b` at most b; `*a..b` -/
 def rangeDenotes (a : Option Nat) (dots : Bool) (b : Option Nat) : Option Int × Option Int :=
   if dots then (a.map Int.ofNat, b.map Int.ofNat) else (a.map Int.ofNat, a.map Int.ofNat)
+
+/-- one child of oC_RangeLiteral as the loop of EnterOC_RangeLiteral classifies it -/
+def rangeTok (N : Names) (f : Nat) (k : Tree) : Option RTok :=
+  match k with
+  | .leaf s => if leafType s == N.tok "T__9" then some RTok.star else if leafType s == N.tok "T__11" then some RTok.dots else some (RTok.other (leafText s))
+  | .node _ _ => some (RTok.int (parseInt64 (getText f k)))
+  | .err _ => none
+
+/-- RelationshipPatternVisitor.EnterOC_RangeLiteral on one oC_RangeLiteral node -/
+def rangeOf (N : Names) (f : Nat) (r : Tree) : R (Option (Option Int × Option Int)) :=
+  let st := parseRange ((kids r).filterMap (rangeTok N f))
+  -- SP children are `other` tokens: the real loop reports "unexpected token in pattern range" for them
+  if st.errors > 0 then .error (.rejected "pattern range") else .ok (some (st.start, st.stop))
 
 /-! ### build -/
 
@@ -552,14 +566,7 @@ def bRel : Nat → Tree → R PatEl
         | none => []
       let range : R (Option (Option Int × Option Int)) := match kidOfRule N d "oC_RangeLiteral" with
         | none => .ok none
-        | some r =>
-          let toks := (kids r).filterMap (fun k => match k with
-            | .leaf s => if leafType s == N.tok "T__9" then some RTok.star else if leafType s == N.tok "T__11" then some RTok.dots else some (RTok.other (leafText s))
-            | .node _ _ => some (RTok.int (parseInt64 (getText (f + 1) k)))
-            | .err _ => none)
-          let st := parseRange toks
-          -- SP children are `other` tokens: the real loop reports "unexpected token in pattern range" for them
-          if st.errors > 0 then .error (.rejected "pattern range") else .ok (some (st.start, st.stop))
+        | some r => rangeOf N (f + 1) r
       match range, kidOfRule N d "oC_Properties" with
       | .error e, _ => .error e
       | .ok rg, none => .ok (.rel v kinds dir rg none)
@@ -589,29 +596,41 @@ def bPatternPart (f : Nat) (t : Tree) : R PatternPart :=
     | none, some pe => (bChainEls N f pe).map (fun els => { var := v, shortest := false, allShortest := false, els := els })
     | none, none => un N a
 
+def bProjItem (f : Nat) (i : Tree) : R (Expr × Option String) :=
+  match kidOfRule N i "oC_Expression" with
+  | some e => (bExpr N f e).map (fun x => (x, (kidOfRule N i "oC_Variable").map (getText f)))
+  | none => un N i
+
+def bSortItem (f : Nat) (si : Tree) : R (Bool × Expr) :=
+  match kidOfRule N si "oC_Expression" with
+  | some e => (bExpr N f e).map (fun x => (!(hasTok N si "DESC" || hasTok N si "DESCENDING"), x))
+  | none => un N si
+
+def bOrder (f : Nat) (t : Tree) : R (Option (List (Bool × Expr))) :=
+  match kidOfRule N t "oC_Order" with
+  | none => .ok none
+  | some o => (mapM' (bSortItem N f) (kidsOfRule N o "oC_SortItem")).map some
+
+/-- the expression of an optional `SKIP e` / `LIMIT e` child -/
+def bSubExpr (f : Nat) (t : Tree) (rule : String) : R (Option Expr) :=
+  match kidOfRule N t rule with
+  | none => .ok none
+  | some s => match kidOfRule N s "oC_Expression" with
+    | some e => (bExpr N f e).map some
+    | none => un N s
+
+/-- EnterOC_ProjectionItems looks at the FIRST non-blank token only: `*` adds the greedy item -/
+def bStar (its : Tree) : List (Expr × Option String) :=
+  match litTokens its with
+  | "*" :: _ => [(.var "*", none)]
+  | _ => []
+
 def bProjection (f : Nat) (t : Tree) : R Projection :=
   match kidOfRule N t "oC_ProjectionItems" with
   | none => un N t
   | some its =>
-    -- EnterOC_ProjectionItems looks at the FIRST non-blank token only: `*` adds the greedy item
-    let star : List (Expr × Option String) := match litTokens its with
-      | "*" :: _ => [(.var "*", none)]
-      | _ => []
-    let item (i : Tree) : R (Expr × Option String) :=
-      match kidOfRule N i "oC_Expression" with
-      | some e => (bExpr N f e).map (fun x => (x, (kidOfRule N i "oC_Variable").map (getText f)))
-      | none => un N i
-    let order : R (Option (List (Bool × Expr))) := match kidOfRule N t "oC_Order" with
-      | none => .ok none
-      | some o => (mapM' (fun si => match kidOfRule N si "oC_Expression" with
-          | some e => (bExpr N f e).map (fun x => (!(hasTok N si "DESC" || hasTok N si "DESCENDING"), x))
-          | none => un N si) (kidsOfRule N o "oC_SortItem")).map some
-    let sub (rule : String) : R (Option Expr) := match kidOfRule N t rule with
-      | none => .ok none
-      | some s => match kidOfRule N s "oC_Expression" with
-        | some e => (bExpr N f e).map some
-        | none => un N s
-    match mapM' item (kidsOfRule N its "oC_ProjectionItem"), order, sub "oC_Skip", sub "oC_Limit" with
+    let star := bStar its
+    match mapM' (bProjItem N f) (kidsOfRule N its "oC_ProjectionItem"), bOrder N f t, bSubExpr N f t "oC_Skip", bSubExpr N f t "oC_Limit" with
     | .ok items, .ok ord, .ok sk, .ok li => .ok { distinct := hasTok N t "DISTINCT", items := star ++ items, order := ord, skip := sk, limit := li }
     | .error e, _, _, _ => .error e
     | _, .error e, _, _ => .error e
@@ -658,22 +677,34 @@ def labelsOf (f : Nat) (t : Tree) : List String :=
     | some n => getText f n
     | none => "")
 
+def bSetItem (f : Nat) (it : Tree) : R SetItem :=
+  let op := if hasTok N it "T__1" then "=" else if hasTok N it "T__7" then "+=" else ""
+  let left : R Expr := match kidOfRule N it "oC_PropertyExpression", kidOfRule N it "oC_Variable" with
+    | some pe, _ => bPropertyExpression N f pe
+    | none, some v => .ok (.var (getText f v))
+    | none, none => un N it
+  let right : R SetRhs := match kidOfRule N it "oC_Expression", kidOfRule N it "oC_NodeLabels" with
+    | some e, _ => (bExpr N f e).map SetRhs.expr
+    | none, some ls => .ok (.kinds (labelsOf N f ls))
+    | none, none => un N it
+  match left, right with
+  | .ok l, .ok r => .ok { left := l, op := op, right := r }
+  | .error e, _ => .error e
+  | _, .error e => .error e
+
 /-- SetVisitor on one oC_Set -/
-def bSet (f : Nat) (t : Tree) : R (List SetItem) :=
-  mapM' (fun it =>
-    let op := if hasTok N it "T__1" then "=" else if hasTok N it "T__7" then "+=" else ""
-    let left : R Expr := match kidOfRule N it "oC_PropertyExpression", kidOfRule N it "oC_Variable" with
-      | some pe, _ => bPropertyExpression N f pe
-      | none, some v => .ok (.var (getText f v))
-      | none, none => un N it
-    let right : R SetRhs := match kidOfRule N it "oC_Expression", kidOfRule N it "oC_NodeLabels" with
-      | some e, _ => (bExpr N f e).map SetRhs.expr
-      | none, some ls => .ok (.kinds (labelsOf N f ls))
-      | none, none => un N it
-    match left, right with
-    | .ok l, .ok r => .ok { left := l, op := op, right := r }
-    | .error e, _ => .error e
-    | _, .error e => .error e) (kidsOfRule N t "oC_SetItem")
+def bSet (f : Nat) (t : Tree) : R (List SetItem) := mapM' (bSetItem N f) (kidsOfRule N t "oC_SetItem")
+
+def bRemoveItem (f : Nat) (it : Tree) : R RemoveItem :=
+  match kidOfRule N it "oC_PropertyExpression", kidOfRule N it "oC_Variable", kidOfRule N it "oC_NodeLabels" with
+  | some pe, _, _ => (bPropertyExpression N f pe).map RemoveItem.prop
+  | none, some v, some ls => .ok (.kinds (getText f v) (labelsOf N f ls))
+  | _, _, _ => un N it
+
+def bMergeAction (f : Nat) (a : Tree) : R (Bool × Bool × List SetItem) :=
+  match kidOfRule N a "oC_Set" with
+  | some st => (bSet N f st).map (fun items => (hasTok N a "ON" && hasTok N a "CREATE", hasTok N a "ON" && hasTok N a "MATCH", items))
+  | none => un N a
 
 /-- UpdatingClauseVisitor -/
 def bUpdating (f : Nat) (t : Tree) : R Updating :=
@@ -686,19 +717,13 @@ def bUpdating (f : Nat) (t : Tree) : R Updating :=
       | some p => (mapM' (bPatternPart N f) (kidsOfRule N p "oC_PatternPart")).map Updating.create
       | none => un N k
     | "oC_Delete" => (mapM' (bExpr N f) (kidsOfRule N k "oC_Expression")).map (Updating.delete (hasTok N k "DETACH"))
-    | "oC_Remove" =>
-      (mapM' (fun it => match kidOfRule N it "oC_PropertyExpression", kidOfRule N it "oC_Variable", kidOfRule N it "oC_NodeLabels" with
-        | some pe, _, _ => (bPropertyExpression N f pe).map RemoveItem.prop
-        | none, some v, some ls => .ok (.kinds (getText f v) (labelsOf N f ls))
-        | _, _, _ => un N it) (kidsOfRule N k "oC_RemoveItem")).map Updating.remove
+    | "oC_Remove" => (mapM' (bRemoveItem N f) (kidsOfRule N k "oC_RemoveItem")).map Updating.remove
     | "oC_Set" => (bSet N f k).map Updating.set
     | "oC_Merge" =>
       match kidOfRule N k "oC_PatternPart" with
       | none => un N k
       | some pp =>
-        match bPatternPart N f pp, mapM' (fun a => match kidOfRule N a "oC_Set" with
-            | some st => (bSet N f st).map (fun items => (hasTok N a "ON" && hasTok N a "CREATE", hasTok N a "ON" && hasTok N a "MATCH", items))
-            | none => un N a) (kidsOfRule N k "oC_MergeAction") with
+        match bPatternPart N f pp, mapM' (bMergeAction N f) (kidsOfRule N k "oC_MergeAction") with
         | .ok part, .ok acts => .ok (.merge part acts)
         | .error e, _ => .error e
         | _, .error e => .error e
@@ -741,7 +766,7 @@ def bParts (f : Nat) : List Tree → List Reading → List Updating → R (List 
 
 /-- QueryVisitor on the whole tree -/
 def build (t : Tree) : R Query :=
-  let f := size t + 2
+  let f := 2 * size t + 8
   if ruleNameOf N t != "oC_Cypher" then un N t else
   match kidOfRule N t "oC_QueryOptions", kidOfRule N t "oC_Statement" with
   | some qo, some st =>
@@ -940,10 +965,20 @@ def unknownFloat : String := "<float?>"
 
 /-! ### emit: format.go as a token list (whitespace is not a token; the harness joins with the emitter's spacing rules) -/
 
+/-- a property key / name that is written bare (cypher.CanEmitBarePropertyKeyName, ASCII part) -/
+def simpleKey (k : String) : Bool :=
+  match k.toList with
+  | c :: cs => (c.isAlpha || c == '_') && cs.all (fun x => x.isAlphanum || x == '_')
+  | [] => false
+
 def escapeKeyTok (k : String) : String :=
   -- cypher.EscapePropertyKeyName: bare when the key is a plain symbolic name (ASCII approximation), else back-ticked
-  let ok := !k.isEmpty && (k.front.isAlpha || k.front == '_') && k.toList.all (fun c => c.isAlphanum || c == '_')
-  if ok then k else "`" ++ String.ofList (doubleTicks k.toList) ++ "`"
+  if simpleKey k then k else "`" ++ String.ofList (doubleTicks k.toList) ++ "`"
+
+/-- the words of an operator as the emitter's text lexes (`starts with` is two tokens) -/
+def opWords (op : String) : List String :=
+  if op == "starts with" then ["starts", "with"] else if op == "ends with" then ["ends", "with"]
+  else if op == "is not" then ["is", "not"] else [op]
 
 def commaSep (xss : List (List String)) : List String :=
   match xss with
@@ -978,7 +1013,7 @@ def eExpr : Nat → Expr → List String
     | .conj es => sepBy "and" (es.map (fun x => eOperand f x 2))
     | .disj es => sepBy "or" (es.map (eExpr f))
     | .xdisj es => sepBy "xor" (es.map (fun x => eOperand f x 1))
-    | .cmp l ps => eExpr f l ++ (ps.map (fun p => p.1 :: eExpr f p.2)).flatten
+    | .cmp l ps => eExpr f l ++ (ps.map (fun p => opWords p.1 ++ eExpr f p.2)).flatten
     | .arith l ps => eExpr f l ++ (ps.map (fun p => p.1 :: eExpr f p.2)).flatten
     | .unary op r => op :: eExpr f r
     | .list es => ["["] ++ commaSep (es.map (eExpr f)) ++ ["]"]
@@ -1012,14 +1047,17 @@ end
 
 def eWhere (w : Option Expr) : List String := match w with | some x => "where" :: eExpr bigFuel x | none => []
 
+def eAs (a : Option String) : List String := match a with | some a => ["as", a] | none => []
+def eItem (it : Expr × Option String) : List String := eExpr bigFuel it.1 ++ eAs it.2
+def eSortItem (si : Bool × Expr) : List String := eExpr bigFuel si.2 ++ [if si.1 then "asc" else "desc"]
+def eOrder (o : Option (List (Bool × Expr))) : List String :=
+  match o with | some o => ["order", "by"] ++ commaSep (o.map eSortItem) | none => []
+/-- `SKIP e` / `LIMIT e` -/
+def eKwExpr (kw : String) (e : Option Expr) : List String := match e with | some e => kw :: eExpr bigFuel e | none => []
+
 def eProjection (p : Projection) : List String :=
-  (if p.distinct then ["distinct"] else []) ++
-  commaSep (p.items.map (fun it => eExpr bigFuel it.1 ++ (match it.2 with | some a => ["as", a] | none => []))) ++
-  (match p.order with
-   | some o => ["order", "by"] ++ commaSep (o.map (fun si => eExpr bigFuel si.2 ++ [if si.1 then "asc" else "desc"]))
-   | none => []) ++
-  (match p.skip with | some e => "skip" :: eExpr bigFuel e | none => []) ++
-  (match p.limit with | some e => "limit" :: eExpr bigFuel e | none => [])
+  (if p.distinct then ["distinct"] else []) ++ commaSep (p.items.map eItem) ++ eOrder p.order ++
+  eKwExpr "skip" p.skip ++ eKwExpr "limit" p.limit
 
 def ePatternPart (p : PatternPart) : List String :=
   (match p.var with | some v => [v, "="] | none => []) ++
@@ -1032,25 +1070,39 @@ def eReading : Reading → List String
 
 def eKinds (ks : List String) : List String := (ks.map (fun k => [":", k])).flatten
 
-def eSetItems (items : List SetItem) : List String :=
-  "set" :: commaSep (items.map (fun it => eExpr bigFuel it.left ++ (if it.op == "" then [] else [it.op]) ++
-    (match it.right with | .expr e => eExpr bigFuel e | .kinds ks => eKinds ks)))
+def eSetRhs : SetRhs → List String
+  | .expr e => eExpr bigFuel e
+  | .kinds ks => eKinds ks
+
+def eSetItem (it : SetItem) : List String :=
+  eExpr bigFuel it.left ++ (if it.op == "" then [] else [it.op]) ++ eSetRhs it.right
+
+def eSetItems (items : List SetItem) : List String := "set" :: commaSep (items.map eSetItem)
+
+def eRemoveItem : RemoveItem → List String
+  | .kinds r ks => r :: eKinds ks
+  | .prop l => eExpr bigFuel l
+
+def eMergeAction (a : Bool × Bool × List SetItem) : List String :=
+  (if a.1 then ["on", "create"] else []) ++ (if a.2.1 then ["on", "match"] else []) ++ eSetItems a.2.2
 
 def eUpdating : Updating → List String
   | .create ps => "create" :: commaSep (ps.map ePatternPart)
   | .delete d es => (if d then ["detach", "delete"] else ["delete"]) ++ commaSep (es.map (eExpr bigFuel))
-  | .remove items => "remove" :: commaSep (items.map (fun it => match it with
-      | .kinds r ks => r :: eKinds ks
-      | .prop l => eExpr bigFuel l))
+  | .remove items => "remove" :: commaSep (items.map eRemoveItem)
   | .set items => eSetItems items
-  | .merge part acts => "merge" :: ePatternPart part ++
-      (acts.map (fun a => (if a.1 then ["on", "create"] else []) ++ (if a.2.1 then ["on", "match"] else []) ++ eSetItems a.2.2)).flatten
+  | .merge part acts => "merge" :: ePatternPart part ++ (acts.map eMergeAction).flatten
+
+def eReturn (r : Option Projection) : List String := match r with | some p => "return" :: eProjection p | none => []
 
 def eSinglePart (q : SinglePart) : List String :=
-  (q.reading.map eReading).flatten ++ (q.updating.map eUpdating).flatten ++ (match q.ret with | some p => "return" :: eProjection p | none => [])
+  (q.reading.map eReading).flatten ++ (q.updating.map eUpdating).flatten ++ eReturn q.ret
+
+def ePart (p : Part) : List String :=
+  (p.reading.map eReading).flatten ++ (p.updating.map eUpdating).flatten ++ ["with"] ++ eProjection p.withProj ++ eWhere p.withWhere
 
 def emit : Query → List String
   | .single q => eSinglePart q
-  | .multi ps l => (ps.map (fun p => (p.reading.map eReading).flatten ++ (p.updating.map eUpdating).flatten ++ ["with"] ++ eProjection p.withProj ++ eWhere p.withWhere)).flatten ++ eSinglePart l
+  | .multi ps l => (ps.map ePart).flatten ++ eSinglePart l
 
 end Dawgs.C07
